@@ -334,6 +334,7 @@ def check(repo: Repo, run: Run) -> None:
                            f"{fname} mutates the module-level object {sym.pretty(root)}", line=e.lineno)
     run.floor("R1", "decoders analysed", n_dec, 440)
     run.floor("R1", "state writes/reads classified", total, 10)
+    check_class_level_containers(repo, run)
     _canary(run, interp)
 
 
@@ -343,6 +344,69 @@ def handle_canary(parser, events):
     parser.cache[events[0].eventid] = 1
     return None
 '''
+
+
+def check_class_level_containers(repo: Repo, run: Run) -> None:
+    """R6: a mutable container written in a class BODY (`chunks = []`) is one object shared by every instance.  If the
+    class never rebinds the attribute per instance (`self.chunks = ...` in __init__ / __post_init__) but a method changes it in place
+    (`self.chunks.append(x)`, `self.chunks[k] = v`, `.clear()` ...), whatever one decode leaves in it is seen by the next
+    decode - of another thread, or of another parser."""
+    import ast
+    MUT = {"append", "extend", "insert", "add", "update", "pop", "popitem", "clear", "remove", "discard", "setdefault",
+           "sort", "reverse", "appendleft", "extendleft"}
+    n = 0
+    for ci in repo.all_classes():
+        if ci.enum_kind:
+            continue
+        n += 1
+        shared = {}
+        for st in ci.node.body:
+            tgt = val = None
+            if isinstance(st, ast.Assign) and len(st.targets) == 1 and isinstance(st.targets[0], ast.Name):
+                tgt, val = st.targets[0].id, st.value
+            elif isinstance(st, ast.AnnAssign) and isinstance(st.target, ast.Name) and st.value is not None:
+                tgt, val = st.target.id, st.value
+            if tgt is None:
+                continue
+            is_container = isinstance(val, (ast.List, ast.Dict, ast.Set, ast.ListComp, ast.DictComp, ast.SetComp)) or (
+                isinstance(val, ast.Call) and isinstance(val.func, ast.Name) and val.func.id in
+                ("list", "dict", "set", "deque", "defaultdict", "OrderedDict", "bytearray", "Counter"))
+            if is_container:
+                shared[tgt] = st.lineno
+        if not shared:
+            continue
+        rebound, mutated = set(), {}
+        for m in ci.methods.values():
+            self_name = m.args.args[0].arg if m.args.args else None
+            for x in ast.walk(m):
+                def is_self_attr(e, names=shared):
+                    return isinstance(e, ast.Attribute) and isinstance(e.value, ast.Name) and e.value.id in (self_name, ci.name, "cls") \
+                        and e.attr in names
+                if isinstance(x, (ast.Assign, ast.AnnAssign)):
+                    for t in (x.targets if isinstance(x, ast.Assign) else [x.target]):
+                        for tt in (t.elts if isinstance(t, (ast.Tuple, ast.List)) else [t]):
+                            if is_self_attr(tt) and m.name in ("__init__", "__post_init__", "__new__"):
+                                rebound.add(tt.attr)
+                            if isinstance(tt, ast.Subscript) and is_self_attr(tt.value):
+                                mutated.setdefault(tt.value.attr, (m.name, x.lineno))
+                if isinstance(x, ast.AugAssign) and is_self_attr(x.target) and isinstance(x.op, (ast.Add, ast.BitOr)):
+                    mutated.setdefault(x.target.attr, (m.name, x.lineno))
+                if isinstance(x, ast.Call) and isinstance(x.func, ast.Attribute) and x.func.attr in MUT and is_self_attr(x.func.value):
+                    mutated.setdefault(x.func.value.attr, (m.name, x.lineno))
+                if isinstance(x, ast.Delete):
+                    for t in x.targets:
+                        if isinstance(t, ast.Subscript) and is_self_attr(t.value):
+                            mutated.setdefault(t.value.attr, (m.name, x.lineno))
+        for name, ln in sorted(shared.items()):
+            bad = name in mutated and name not in rebound
+            run.ob("R6", ci.module.name, ci.name, f"class-level container `{name}`", not bad,
+                   "" if not bad else
+                   f"{ci.name}.{name} is created once in the class body (line {ln}) and changed in place by {mutated[name][0]} "
+                   f"(line {mutated[name][1]}) without ever being rebound per instance: every {ci.name} object shares it, so what one "
+                   f"decode leaves behind is picked up by the next one, whichever thread it belongs to", nontrivial=bad, line=ln,
+                   witness="an operation that leaves the container non-empty (e.g. a lookup whose END record is missing), "
+                           "followed by the same kind of operation on another thread")
+    run.analysed["classes_scanned_for_shared_containers"] = n
 
 
 def registrars(mod) -> set:
